@@ -29,6 +29,14 @@
 namespace tbox {
 namespace alarm {
 
+WorkdayAlarm::~WorkdayAlarm() {
+  //! ~Alarm() 中的 cleanup() 已无法调到本类的 onDisable()，必须在这里退订，
+  //! 否则日历的 watch_alarms_ 中会留下悬空指针
+  cleanup();
+  if (wp_calendar_ != nullptr)
+    wp_calendar_->unsubscribe(this);  //! enable() 失败时订阅也会留下
+}
+
 bool WorkdayAlarm::initialize(int seconds_of_day, WorkdayCalendar *wp_calendar, bool workday) {
   if (state_ == State::kRunning) {
     LogWarn("alarm is running state, disable first");
